@@ -139,7 +139,7 @@ def execute(plan):
         state['done'] = True
         sys.stdout, sys.stderr = old_out, old_err
         finish(outcome)
-        rec['open_sockets'] = sum(1 for s in world.sockets if not s.closed)
+        rec['open_sockets'] = sum(1 for s in world.live_sockets() if not s.closed)
         _deliver(rec)
 
     k.abort_handler = on_abort
@@ -183,11 +183,10 @@ def execute(plan):
     rec['status'] = status
     # interpreter shutdown: drop the frames' references, collect, then look at what is still open
     gc.collect()
-    open_before_exit = [s.fd for s in world.sockets if not s.closed]
-    rec['open_sockets'] = len(open_before_exit)
-    # let in-flight FINs arrive so the peers see the closes
+    # let in-flight segments / FINs / connection set-ups arrive so the peers see the closes (events hold references
+    # to sockets, so only afterwards can unreferenced sockets be finalised as CPython would)
     try:
-        for _ in range(10000):
+        for _ in range(100000):
             if not k.heap:
                 break
             t = k.heap[0][0]
@@ -197,6 +196,8 @@ def execute(plan):
             k._run_due()
     except SimAbort:
         pass
+    gc.collect()
+    rec['open_sockets'] = len([s.fd for s in world.live_sockets() if not s.closed])
     seams.deactivate()
     os.environ.clear()
     os.environ.update(env_backup)
